@@ -159,6 +159,13 @@ def dropCtx (c : Ctx) (ans : Int) : Ctx :=
   { c with owner := false, refs := c.refs - 1, send := if c.refs - 1 ≠ 0 then false else c.send,
            cur := r.rd, log := addCall c.log r.call, lost := addLost c.lost r.dropped }
 
+/-- `contextRef` + `contextUnref` through a second metatype reference: the count is back where it was, but
+    the release ran the "references remain" branch of `contextUnref` — default reply for the pending
+    request, then `reply.send = 0` -/
+def reref (c : Ctx) (ans : Int) : Ctx :=
+  let r := if c.send ∧ c.cur.isSome then contextSend c.send c.ptr c.cur none ans else ⟨0, c.cur, none, none⟩
+  { c with send := false, cur := r.rd, log := addCall c.log r.call, lost := addLost c.lost r.dropped }
+
 /-- an operation on the context together with the transport's answer, should it be asked -/
 inductive Op where
   | arm (bytes : List Byte)
